@@ -165,6 +165,11 @@ def main(argv=None):
                 elif o['verdict'] == 'vacuous' and o['name'] == 'cover.requires':
                     errors.append('vacuous precondition: %s' % oid)
                 continue
+            if o['kind'] == 'applicability' and o['verdict'] != 'proved':
+                # a condition under which the executor's model of the code applies could not be established: the unit is
+                # undecided (exit 2), whatever the solver said - never a violation
+                undecided.append('%s path %d: the loop rule does not apply (%s)' % (oid, o['path'], o['verdict']))
+                continue
             n_obl += 1
             names.add(oid)
             if o['verdict'] == 'proved':
@@ -322,6 +327,23 @@ def write_evidence(prop, tier, seed, eng, funcs, n_obl, n_dis, by_backend, solve
             for a in c.extra.get('assumes', []):
                 if a not in trusted:
                     trusted.append(a)
+    # callees that the units of this property see through a contract nobody verifies: `trusted` ones and methods declared
+    # `inline_only` without `inline_at_calls` (applied at call sites as "assert the object invariant, forget the declared
+    # frame, assume the listed clauses"; their own bodies are not checked against it)
+    classes = set(f['qualname'].rsplit('.', 1)[0].split('.<')[0] for f in funcs)
+    classes |= set(c_.rsplit('.', 1)[0] for c_ in list(classes))
+    for qn, c in CONTRACTS.items():
+        unverified = c.trusted or (c.extra.get('inline_only') and c.extra.get('method') and not c.extra.get('inline_at_calls')
+                                   and not c.inline)
+        if not unverified or qn.rsplit('.', 1)[0] not in classes:
+            continue
+        clauses = sorted(n_.split('[')[0] for n_ in list(c.ensures) + list((c.extra.get('assumed_ensures') or {})))
+        line = ('callee represented by an UNVERIFIED contract (%s): %s - frame %s; assumed clauses: %s'
+                % ('trusted' if c.trusted else 'havoc-only stand-in for a method outside the subset', qn.split('afkak.')[-1],
+                   c.extra.get('modifies') if c.extra.get('modifies') is not None else 'everything mutable',
+                   ', '.join(clauses) or 'none'))
+        if line not in trusted:
+            trusted.append(line)
     proved_all = n_obl > 0 and n_dis == n_obl and not undecided and not errors
     level = PROP_LEVEL.get(prop, 'proof')
     bl = list(bounded_units)
@@ -353,12 +375,59 @@ def write_evidence(prop, tier, seed, eng, funcs, n_obl, n_dis, by_backend, solve
             rule='deductive part: one evaluation per obligation instance (named obligation x path); bounded part: generated '
                  'scenarios/inputs, distinct = distinct event scripts / argument tuples',
         ),
-        assumptions=ASSUMPTIONS + meta.get('assumptions', []),
+        assumptions=ASSUMPTIONS + meta.get('assumptions', []) + entry_assumptions(funcs) + uncontracted_methods(eng, funcs),
         wall_s=round(wall, 2), violations=len(violations),
     )
     os.makedirs(os.path.join(VERIF, 'evidence'), exist_ok=True)
     with open(os.path.join(VERIF, 'evidence', prop + '.json'), 'w') as f:
         json.dump(ev, f, indent=1, default=str)
+
+
+def entry_assumptions(funcs):
+    """preconditions of entry points (methods and callbacks that Twisted or the application invokes): proved at every call
+    made from code under contract (`pre@...` obligations), ASSUMED when the caller is outside it"""
+    from .contracts import CONTRACTS
+    out = []
+    for f in funcs:
+        c = CONTRACTS.get(f['qualname'])
+        if c is None or not c.extra.get('entry_point') or not c.requires:
+            continue
+        line = ('precondition of entry point %s, assumed when it is invoked from outside the code under contract: %s'
+                % (f['qualname'].split('afkak.')[-1], ' and '.join('(%s)' % r for r in c.requires)))
+        if line not in out:
+            out.append(line)
+    return out
+
+
+def uncontracted_methods(eng, funcs):
+    """rely/guarantee reasoning covers the entry points under contract; the other methods of the same class may run during an
+    excursion too - that they keep the object invariant and the rely clauses is an assumption, listed here by name"""
+    from .contracts import CONTRACTS
+    from .heap import KLASSES
+    out = []
+    used = set()
+    for f in funcs:
+        parts = f['qualname'].split('.<')[0].split('.')
+        for i in range(len(parts)):
+            if parts[i] in KLASSES and not KLASSES[parts[i]].external:
+                used.add(('.'.join(parts[:i]), parts[i]))
+    for modname, kname in sorted(used):
+        m = eng.repo.modules.get(modname)
+        ci = m.classes.get(kname) if m is not None else None
+        if ci is None or not (KLASSES[kname].invariant or KLASSES[kname].rely):
+            continue
+        un = []
+        for n in ci.methods:
+            if n.startswith('__') and n.endswith('__'):
+                continue
+            cands = [c for q, c in CONTRACTS.items() if q == '%s.%s.%s' % (modname, kname, n) or q.startswith('%s.%s.%s@' % (modname, kname, n))]
+            ok = any(not c.trusted and not (c.extra.get('inline_only') and not c.extra.get('inline_at_calls')) for c in cands)
+            if not ok:
+                un.append(n)
+        if un:
+            out.append('methods of %s.%s without a verified contract (assumed to preserve its object invariant and rely clauses '
+                       'if they run during an excursion): %s' % (modname.split('afkak.')[-1], kname, ', '.join(un)))
+    return out
 
 
 def _z3ver():
